@@ -3,7 +3,12 @@ import json
 import re
 
 def unsafe_decode(string):
-  return json.loads(string)
+  try:
+    return json.loads(string)
+  except ValueError as err:
+    raise gfapy.FormatError(
+      "{} is not a valid JSON string\n".format(repr(string))+
+      "error message: {}".format(str(err))) from err
 
 def decode(string):
   validate_all_printable(string)
